@@ -142,11 +142,7 @@ fn fork(w: &mut World, r: &mut Rng, h: u32, extend: usize, p: &ChainParams) {
                 let is_note = w.notes.contains_key(k);
                 !spent.contains(k) && (!is_note || alive.contains(k))
             });
-            // a Sapling nullifier depends on the note's tree position, so a re-mined Sapling
-            // output of the wallet would come back under another nullifier; the model names
-            // notes by nullifier, so such transactions are dropped instead of re-mined
-            let keeps_nf = t.outs.iter().all(|o| !(o.pool == Pool::Sapling && o.owner.is_some()));
-            if inputs_ok && keeps_nf && r.chance(2, 3) {
+            if inputs_ok && r.chance(2, 3) {
                 idx.push(i);
                 for (_, k) in &t.spends {
                     spent.insert(*k);
@@ -161,8 +157,14 @@ fn fork(w: &mut World, r: &mut Rng, h: u32, extend: usize, p: &ChainParams) {
             continue;
         }
         if r.chance(1, 3) {
-            // delay: an unrelated block first, so the transaction is re-mined at another height
-            w.push_block(&[]);
+            // delay: an unrelated block first, so the transaction is re-mined at another height and,
+            // with the foreign Sapling output, at another position of the Sapling tree (its notes
+            // come back under other nullifiers)
+            if r.chance(2, 3) {
+                w.push_block(&[TxSpec { spends: vec![], outs: vec![OutSpec { owner: None, pool: Pool::Sapling, value: 777, internal: false }], foreign_spends: 0 }]);
+            } else {
+                w.push_block(&[]);
+            }
             made += 1;
         }
         w.remine(ob, &idx);
